@@ -619,6 +619,8 @@ fn main() {
     if case["mode"].as_str() == Some("bytes") {
         bytes_mode(&case, err_fd);
     }
+    // contained panics ("Gp") must not write to the captured fd 2
+    std::panic::set_hook(Box::new(|_| {}));
     let cap = case["cap"].as_u64().unwrap_or(1) as usize;
     let lossy = case["lossy"].as_bool().unwrap_or(true);
     let progs: Vec<Vec<u64>> = case["progs"].as_array().map(|a| {
@@ -758,7 +760,10 @@ fn main() {
                     status = 1;
                 }
             }
-            "G" => {
+            // "G": drop(guard) on a thread of its own.  "Gp": the same guard dropped BY UNWINDING - it is a local of a
+            // closure that panics under catch_unwind (the case the guard is documented for: a panic near program exit).
+            "G" | "Gp" => {
+                let by_panic = op == "Gp";
                 let startable = { sh.st.lock().unwrap().dstate == 0 };
                 if startable && guard.is_some() {
                     let g = guard.take().unwrap();
@@ -776,7 +781,15 @@ fn main() {
                             st.epoch += 1;
                         }
                         let t = Instant::now();
-                        drop(g);
+                        if by_panic {
+                            let r = std::panic::catch_unwind(std::panic::AssertUnwindSafe(move || {
+                                let _guard_local = g;
+                                panic!("contained panic: the guard is dropped by unwinding");
+                            }));
+                            assert!(r.is_err());
+                        } else {
+                            drop(g);
+                        }
                         let mut st = sh2.st.lock().unwrap();
                         st.drop_ms = t.elapsed().as_millis();
                         st.dstate = 3;
@@ -838,7 +851,7 @@ fn main() {
                     3
                 } else if msg.contains("Shutting down logging worker timed out") {
                     4
-                } else if msg.contains("panicked") {
+                } else if msg.contains("Logging worker thread panicked") {
                     9
                 } else {
                     2
